@@ -20,7 +20,14 @@ import (
 	"golang.org/x/tools/go/ssa/ssautil"
 )
 
-const repoDir = "/repo"
+// the tree under test; VERIF_REPO points the machinery at a scratch copy (used to try seeded defects without
+// touching /repo)
+var repoDir = func() string {
+	if d := os.Getenv("VERIF_REPO"); d != "" {
+		return d
+	}
+	return "/repo"
+}()
 const modPath = "github.com/oasisprotocol/ed25519"
 
 type BuildConfig struct {
